@@ -122,6 +122,9 @@ Definition embed (l : list instr) : circ := map It l.
 Definition flattened_l (c : circ) : list instr := fuse (fst (flat_sh c [])).
 Definition flattened (c : circ) : circ := embed (flattened_l c).
 
+(* two circuits are the same up to REPEAT unrolling and Stim's merging *)
+Definition sim (a b : circ) : Prop := fuse (flatten0 a) = fuse (flatten0 b).
+
 (* no SHIFT_COORDS is ever executed *)
 Definition noshift (c : circ) : bool := forallb (fun i => negb (is_shift i)) (flatten0 c).
 
